@@ -665,3 +665,15 @@ MUTANTS.setdefault("C08", []).extend([
     on("neutral-sm-u3", mut("sm-u3+zero-rate-allowed", "the helper rejects only negative rates", [(MPARSER, "        if rate_decimal <= Decimal::ZERO {", "        if rate_decimal < Decimal::ZERO {")], ["R7:rate:positive"])),
     on("neutral-sm-u3", mut("sm-u3+month-unchecked", "the parser compares only the year with the expected period", [(MPARSER, "        && (year != expected_year || month != expected_month)", "        && year != expected_year")], ["R7:period:month"])),
 ])
+
+# round 10 (eight seeds): as thorough-tier mutants under the rule of their own property
+_R10 = {
+    "C06": ("C06-s10", "same-day lots debited by a ratio that is counted down inside the loop", ["R3:"]),
+    "C12": ("C12-s10", "whole-timeline SPLIT flag switches the look-ahead's branch", ["R1:"]),
+    "C14": ("C14-s10", "DSL parser resolves withdrawn ISO codes to their successors", ["R1:"]),
+    "C17": ("C17-s10", "JSON money rounded to 4 dp and then to pence", ["R1:"]),
+}
+for _p, (_base, _what, _exp) in _R10.items():
+    _m = mut("s10-" + _base.lower(), _what, [], _exp)
+    _m["base"] = _base
+    MUTANTS.setdefault(_p, []).append(_m)
